@@ -560,3 +560,24 @@ Definition make_transparent_px (four_bands : bool) (color : rgb) (tol : Z) (p : 
   let m := if hit r cr && hit g cg && hit b cb then 255 else 0 in
   let alpha := 255 - m in
   (r, g, b, if four_bands then chop_mul alpha a else alpha).
+
+(* make_transparent on an image: P is converted to RGBA first, the alpha of a 4 band image is multiplied *)
+Definition make_transparent_img (c : rgb) (tol : Z) (i : image) : image :=
+  mk_image M_RGBA T_none
+           (map (make_transparent_px (is_alpha_mode (im_mode i)) c tol) (im_px i)).
+
+(* WMSSource.get_map for a source that answers: _get_map - the upstream image itself, or, when the request is not
+   inside the extent of the source's coverage, _get_sub_query: the upstream image of the part inside pasted into a
+   transparent image of the requested size (SubImageSource with the source's image options: no mode, no bgcolor) -
+   and then make_transparent when the source has a transparent_color.
+   placement: as for sub_image_source, None when the request is inside the extent. *)
+Definition source_image (tcolor : option rgb) (tol : Z) (placement : option (list (option nat))) (raw : image) : image :=
+  let img := match placement with
+             | Some pl => sub_image_source (mk_ropts None None None) raw pl
+             | None => raw
+             end in
+  match tcolor with
+  | Some c => make_transparent_img c tol img
+  | None => img
+  end.
+
